@@ -1110,8 +1110,11 @@ unaryexpr(struct scope *s)
 			if (t) {
 				expect(TRPAREN, "after type name");
 				/* might be part of a compound literal */
-				if (op == TSIZEOF && tok.kind == TLBRACE)
+				if (op == TSIZEOF && tok.kind == TLBRACE) {
+					if (t->kind == TYPEARRAY && t->incomplete)
+						t = mkarraytype(t->base, t->qual, 0);
 					parseinit(s, t);
+				}
 				e = NULL;
 			} else {
 				e = expr(s);
@@ -1172,6 +1175,9 @@ castexpr(struct scope *s)
 		}
 		expect(TRPAREN, "after type name");
 		if (tok.kind == TLBRACE) {
+			/* the initializer completes the type of this literal only: a typedef may share the array type */
+			if (t->kind == TYPEARRAY && t->incomplete)
+				t = mkarraytype(t->base, t->qual, 0);
 			e = mkexpr(EXPRCOMPOUND, t, NULL);
 			e->toeval = toeval;
 			e->qual = tq;
